@@ -147,6 +147,18 @@ package sdf
 //@       (abs(v.X() - position.X()) < halfBounds.X() && abs(v.Y() - position.Y()) < halfBounds.Y() && abs(v.Z() - position.Z()) < halfBounds.Z()) ||
 //@       sq(pos(abs(v.X() - position.X()) - halfBounds.X())) + sq(pos(abs(v.Y() - position.Y()) - halfBounds.Y())) + sq(pos(abs(v.Z() - position.Z()) - halfBounds.Z())) < roundness * roundness)
 
+// Rounded cylinder: in the (rho, y) half plane, rho the distance from the axis, it is the 2-D rounded box with
+// dx = rho - 2*radius + topHeight and dy = |y| - bodyHeight, minus topHeight.
+//@ spec rcDx(v vector3.Float64, pos vector3.Float64, radius float64, topHeight float64) float64 = sqrt(sq(v.X() - pos.X()) + sq(v.Z() - pos.Z())) - 2.0 * radius + topHeight
+//@ spec rcDy(v vector3.Float64, pos vector3.Float64, bodyHeight float64) float64 = abs(v.Y() - pos.Y()) - bodyHeight
+//@ func RoundedCylinder$1
+//@   props C19
+//@   ensures inside_value: result + topHeight < 0 ==> result + topHeight == max(rcDx(v, pos, radius, topHeight), rcDy(v, pos, bodyHeight))
+//@   ensures outside_distance: result + topHeight >= 0 ==> sq(result + topHeight) == sq(pos(rcDx(v, pos, radius, topHeight))) + sq(pos(rcDy(v, pos, bodyHeight)))
+//@   ensures negative_exactly_within_the_rounding_of_the_core: topHeight >= 0 ==> (result < 0 <==>
+//@       (rcDx(v, pos, radius, topHeight) < 0 && rcDy(v, pos, bodyHeight) < 0) ||
+//@       sq(pos(rcDx(v, pos, radius, topHeight))) + sq(pos(rcDy(v, pos, bodyHeight))) < topHeight * topHeight)
+
 // min / max / negation preserve a common Lipschitz bound (used for union, intersection, subtraction).
 //@ lemma min_max_lipschitz(a1 float64, a2 float64, b1 float64, b2 float64, d float64)
 //@   props C19
